@@ -145,6 +145,20 @@ def run(rep):
                 z["cfg"] = render.cfg_with(tz=zn, tz_off=zo)
                 z["feat"] = dict(it["feat"], deftz=zn)
                 zoned.append(z)
+    import lint
+    lint.report(rep, ("long_months", "short_months", "constant_pair"), "date_lit")
+    # today / tomorrow / yesterday are consecutive days whatever the default zone and the time of day: the differences between
+    # the day keywords under zones east and west of Greenwich, shortly before and after 00:00 UTC (clock shim)
+    for d in fakes[:1]:
+        for zn, zo, hour in (("GMT+5:30", 330, 23), ("GMT-11:30", -690, 1), ("GMT+12", 720, 13), ("GMT-11:30", -690, 10)):
+            ep = epoch_days(d) * 86400 + hour * 3600 + 1800
+            for it in items:
+                if it.get("today") is not None and it["line"]["form"] == "date_diff" and all("rel" in it["line"][x] for x in ("a", "b")) and it["today"] // 86400 == epoch_days(d):
+                    z = dict(it)
+                    z["cfg"] = render.cfg_with(tz=zn, tz_off=zo)
+                    z["today"] = ep
+                    z["feat"] = dict(it["feat"], deftz=zn)
+                    zoned.append(z)
     forms.replay(rep, items + zoned, "c09.gen")
     random_trace(rep, 3000 if quick else 40000)
 
